@@ -66,7 +66,7 @@ pub fn padded_dec(cfg: &Cfg, d: &BlockModeDesc, pad: Pad, k: Kind, key: &[u8], i
 }
 
 pub fn run(ctx: &Ctx) -> Outcome {
-    let cfgs = ctx.cfgs();
+    let cfgs = ctx.cfgs_with_sweep();
     let tier = ctx.tier;
     let seed = ctx.seed;
     // --- part 1: unpadded front-end pairs per family ------------------------------------------
@@ -88,15 +88,23 @@ pub fn run(ctx: &Ctx) -> Outcome {
         let bs = cfg.bs;
         let par = par_of(cfg);
         let block_only = matches!(*fam, "cbc" | "pcbc" | "ige");
-        let lmax = if block_only { tier.pick(2 * par + 2, 3 * par + 3) * bs } else { tier.pick(3 * bs + 2, 4 * bs + 3).max(if fam.starts_with("ctr") || *fam == "belt" { (par + 2) * bs + 1 } else { 0 }) };
+        // all-sizes sweep configurations (every block size 1..=255): reduced length bounds
+        let sweep = cfg.sets.contains('s');
+        let lmax = if sweep {
+            if block_only { 5 * bs } else { 2 * bs + 1 }
+        } else if block_only {
+            tier.pick(2 * par + 2, 3 * par + 3) * bs
+        } else {
+            tier.pick(3 * bs + 2, 4 * bs + 3).max(if fam.starts_with("ctr") || *fam == "belt" { (par + 2) * bs + 1 } else { 0 })
+        };
         let lens: Vec<usize> = if block_only { (0..=lmax / bs).map(|n| n * bs).collect() } else { byte_lengths(bs, lmax) };
         let enc_fes = family_frontends(cfg, fam, Dir::Enc);
         let dec_fes = family_frontends(cfg, fam, Dir::Dec);
         let iv_len = if *fam == "ige" { 2 * bs } else { bs };
         let pre = dirty(lmax + 2 * bs);
-        for key in keys(seed, cfg.key_len).iter().take(tier.pick(1, 2)) {
-            for (ivn, iv) in iv_variants(seed, iv_len) {
-                for (dn, data) in data_variants(seed, 0xC01, lmax) {
+        for key in keys(seed, cfg.key_len).iter().take(if sweep { 1 } else { tier.pick(1, 2) }) {
+            for (ivn, iv) in iv_variants(seed, iv_len).into_iter().skip(if sweep { 2 } else { 0 }) {
+                for (dn, data) in data_variants(seed, 0xC01, lmax).into_iter().skip(if sweep { 2 } else { 0 }) {
                     for &l in &lens {
                         let m = &data[..l];
                         for ef in &enc_fes {
@@ -142,8 +150,8 @@ pub fn run(ctx: &Ctx) -> Outcome {
     let r2 = par_map(&cts_units, |(cfg, d)| {
         let mut rep = Report::new(format!("{}/{}", cfg.name, d.name));
         let bs = cfg.bs;
-        let lens = crate::c05::cts_lengths(bs, par_of(cfg), tier);
-        let lmax = *lens.last().unwrap();
+        let lens = if cfg.sets.contains('s') { vec![bs, bs + 1, 2 * bs - 1, 2 * bs, 2 * bs + 1, 3 * bs + bs / 2, 5 * bs] } else { crate::c05::cts_lengths(bs, par_of(cfg), tier) };
+        let lmax = *lens.iter().max().unwrap();
         let pre = dirty(lmax);
         let ef = fe_cts(cfg, d, Dir::Enc);
         let df = fe_cts(cfg, d, Dir::Dec);
@@ -229,7 +237,7 @@ pub fn run(ctx: &Ctx) -> Outcome {
     extend(&mut o, merge(r3));
     o.rule = "stateless exhaustive: per mode family, every pair (encryption path, decryption path) over the public front-ends (block-level object whole/unit-wise in place, b2b, inout; AsyncStreamCipher one-shot; buffered CFB; keystream core apply / write; byte stream; ciphertext-stealing one-shots; padded forms Pkcs7/Iso7816/AnsiX923/NoPadding in place, b2b, vec) x configuration x key x IV x data x length; oracle: dec(enc(m)) = m and |enc(m)| = |m| for unpadded operations (padded length = |pad(m)|)".into();
     o.configs = cfgs.iter().map(|c| c.name.clone()).collect();
-    o.bounds = vec![("block_modes_max_blocks".into(), J::Str(tier.pick("2*PAR+2", "3*PAR+3").into())), ("byte_modes_max_len".into(), J::Str(tier.pick("max(3*bs+2,(PAR+2)*bs+1)", "max(4*bs+3,(PAR+2)*bs+1)").into())), ("padded_max_len".into(), J::Str(tier.pick("2*bs+1", "3*bs+2").into()))];
+    o.bounds = vec![("all_sizes_sweep".into(), J::Str(if tier == Tier::Thorough && cfgs.iter().any(|c| c.sets.contains('s')) { "every block size 1..=255 (parallel width 2): block modes <= 5 blocks, byte modes <= 2*bs+1 bytes, CTS 7 length classes".into() } else { "not in this tier".to_string() })), ("block_modes_max_blocks".into(), J::Str(tier.pick("2*PAR+2", "3*PAR+3").into())), ("byte_modes_max_len".into(), J::Str(tier.pick("max(3*bs+2,(PAR+2)*bs+1)", "max(4*bs+3,(PAR+2)*bs+1)").into())), ("padded_max_len".into(), J::Str(tier.pick("2*bs+1", "3*bs+2").into()))];
     o.assumptions = vec!["encrypt_padded_vec::<NoPadding> on a non-multiple length panics inside the cipher crate by construction (expect on PadError); it is outside the alphabet".into()];
     // SKIP markers are not violations
     o.violations.retain(|v| v.fp != "SKIP");
